@@ -111,8 +111,13 @@ def run_cmds(pr, cmds, env=None, timeout=60, stagger=0.0, pass_fds=()):
         except subprocess.TimeoutExpired:
             snap = ""
             try:
-                snap = subprocess.run(["sh", "-c", "cat /proc/locks | head -40; ps -eo pid,ppid,stat,args | grep -E 'redo|sleep' | grep -v grep | head -40"],
-                                      stdout=subprocess.PIPE, text=True, timeout=5).stdout
+                # what every process of THIS scenario (its sessions) is doing: state, kernel wait channel, kernel stack,
+                # and which locks exist — enough to tell a blocked lock wait from a lost token from a stalled machine
+                sids = " ".join(str(q.pid) for q in procs)
+                snap = subprocess.run(["sh", "-c", "echo LOCKS; cat /proc/locks | head -30; uptime; "
+                                       "for s in %s; do for p in $(ps -s $s -o pid= 2>/dev/null); do echo \"== $p $(cat /proc/$p/comm 2>/dev/null)\"; head -5 /proc/$p/stack 2>/dev/null; done; done | head -100; "
+                                       "for s in %s; do ps -s $s -o pid,ppid,stat,wchan:24,etimes,args 2>/dev/null | tail -n +2; done | cut -c1-160" % (sids, sids)],
+                                      stdout=subprocess.PIPE, text=True, timeout=10).stdout
             except Exception:
                 pass
             try:
